@@ -216,10 +216,28 @@ def _ro(x):
     return int(x), 1.0
 
 
-def norm_slots(slots):
-    '''-> [ {node_index, node_name, cores:[(i,occ)], gpus:[(i,occ)], lfs, mem}]'''
+def norm_slots(slots, jsrun=False):
+    '''-> [ {node_index, node_name, cores:[(i,occ)], gpus:[(i,occ)], lfs, mem}]
+
+    jsrun: the slot format of ContinuousJsrun - one entry per resource set,
+    `cores` = one core list per rank, `gpus` = the GPUs of the resource set
+    (repeated per rank, shared by its ranks), lfs/mem per resource set.  One
+    normalised entry per rank, the shared GPUs with occupation 1/ranks.'''
     out = list()
     if not slots:
+        return out
+    if jsrun:
+        for s in slots:
+            n = max(len(s['cores']), 1)
+            gset = sorted({int(g) for gm in s.get('gpus') or [] for g in gm})
+            for cm in s['cores']:
+                out.append({'node_index': s.get('node_index'),
+                            'node_name': s.get('node_name'),
+                            'cores': [(int(c), 1.0) for c in cm],
+                            'gpus': [(g, 1.0 / n) for g in gset],
+                            'lfs': (s.get('lfs') or 0) / n,
+                            'mem': (s.get('mem') or 0) / n,
+                            'rs_ranks': n})
         return out
     if isinstance(slots, dict) and 'ranks' in slots:
         slots = slots['ranks']
